@@ -45,6 +45,10 @@ var c10Queries = []string{
 	"SELECT (SELECT a FROM `<-`) AS r FROM t",
 	"SELECT a FROM t WHERE EXISTS (SELECT a FROM s)",
 	"SELECT COUNT(*) FROM t GROUP BY zz HAVING SUM(s) > 1",
+	"SELECT * FROM t x PARALLEL JOIN u y ON vfail(x.a) < y.a",
+	"SELECT * FROM t x PARALLEL JOIN u y ON vpanic(x.a) < y.a",
+	"SELECT * FROM t x PARALLEL HASH_JOIN u y ON x.o = y.a",
+	"SELECT * FROM t x PARALLEL LEFT JOIN u y ON x.a = y.a AND vfail(1) = 1",
 }
 
 // H_C10_queries: malformed / unsupported / failing queries under every
@@ -52,10 +56,10 @@ var c10Queries = []string{
 func H_C10_queries() {
 	qi := verif.Choose("query", len(c10Queries))
 	oi := verif.Choose("options", 8)
-	a := verif.F64("a")
-	verif.Assume(a == a)
+	// small value domains: several of these queries format their operands
+	a := float64(verif.IntRange("a", -2, 9)) / 2
 	doc := Map{
-		"t": []any{Map{"a": a, "s": verif.Str("s", 2, ""), "o": Map{"k": a}, "arr": []any{a}}, Map{"a": float64(2), "s": "x", "o": nil, "arr": []any{}}},
+		"t": []any{Map{"a": a, "s": verif.Str("s", 2, "a(%"), "o": Map{"k": a}, "arr": []any{a}}, Map{"a": float64(2), "s": "x", "o": nil, "arr": []any{}}},
 		"u": []any{Map{"a": float64(2)}, Map{"a": Map{"b": a}}},
 		"a": Map{"b": a},
 	}
@@ -69,6 +73,8 @@ func H_C10_queries() {
 	if oi&4 != 0 {
 		opts = append(opts, IdomaticArrays())
 	}
+	RegisterFunction("vfail", failingFunc)
+	RegisterFunction("vpanic", panickingFunc)
 	verif.Opt("schedules", 1)
 	verif.Opt("preempt", 1)
 	verif.Opt("recursion-is-violation", 1)
